@@ -334,7 +334,8 @@ ADDED = {
             "cleared at once, before the stopping queue event) re-checked here.", ""),
     "C14": ("Later additions: _bad_crc leaves the cached input state; FAST Neuron _process_sa (every report after "
             "initialisation is stored and applied exactly once; bounded: 1 report byte, all 256 bit patterns) and "
-            "update_switches_from_hw_data (bounded: 2 switches).", ""),
+            "update_switches_from_hw_data (bounded: 2 switches); send_and_wait_for_response_processed (W3: a lost "
+            "response is retried as configured; the defect found there was repaired, 8bc3a8a).", ""),
     "C16": ("Later additions: notifier side for the state machine device (state setter, device_loaded_in_mode, "
             "device_removed_from_mode announce every change of the observable state); C01's _run_handlers (each "
             "conditional handler's condition is evaluated for that handler, right before its turn) re-checked here.",
